@@ -319,3 +319,47 @@ class Dual:
 
     def __float__(self):
         raise Inconclusive("dual number realised as float")
+
+
+class DReal(SymReal):
+    """A Python float of unknown value in *dtype mode*: arithmetic with real NumPy arrays yields arrays of the
+    dtype NumPy would produce for a Python float operand (values are meaningless), comparisons with
+    numbers fork through the solver.  Used by C14 to reach value-dependent shortcuts in scale code."""
+    __array_ufunc__ = None
+
+    def _arr(self, o, op):
+        if isinstance(o, np.ndarray) and o.dtype != object:
+            return op(o, 1.0)
+        return None
+
+    def __mul__(self, o):
+        r = self._arr(o, lambda a, b: a * b)
+        return r if r is not None else DReal._wrap(SymReal.__mul__(self, o))
+    __rmul__ = __mul__
+
+    def __add__(self, o):
+        r = self._arr(o, lambda a, b: a + b)
+        return r if r is not None else DReal._wrap(SymReal.__add__(self, o))
+    __radd__ = __add__
+
+    def __sub__(self, o):
+        r = self._arr(o, lambda a, b: b - a)
+        return r if r is not None else DReal._wrap(SymReal.__sub__(self, o))
+
+    def __rsub__(self, o):
+        r = self._arr(o, lambda a, b: a - b)
+        return r if r is not None else DReal._wrap(SymReal.__rsub__(self, o))
+
+    def __truediv__(self, o):
+        r = self._arr(o, lambda a, b: b / a)
+        return r if r is not None else DReal._wrap(SymReal.__truediv__(self, o))
+
+    def __rtruediv__(self, o):
+        r = self._arr(o, lambda a, b: a / b)
+        return r if r is not None else DReal._wrap(SymReal.__rtruediv__(self, o))
+
+    @staticmethod
+    def _wrap(r):
+        if isinstance(r, SymReal) and not isinstance(r, DReal):
+            return DReal(r.e)
+        return r
